@@ -183,7 +183,7 @@ func c18Worker(sh *explore.Shard) {
 			if strings.HasPrefix(v.Msg, "HARNESS") || m1 != m2 || (m1 == "" && r1.PanicValue == nil && !r1.Deadlock && !r1.Horizon) {
 				class = "HARNESS/unstable-replay"
 			}
-			sh.C.Violate(explore.Violation{Property: "C18", Class: class, Msg: fmt.Sprintf("%s [scenario %s, schedule %v]", v.Msg, sc.name, v.Choices),
+			sh.C.Violate(explore.Violation{Property: "C18", Class: class, Confirmed: class == "frames", Msg: fmt.Sprintf("%s [scenario %s, schedule %v]", v.Msg, sc.name, v.Choices),
 				Case: caseJSON(int64(si), map[string]any{"scenario": sc.name, "schedule": v.Choices, "bound": bound, "ticks": ticks}), Detail: strings.Join(f1, "\n")})
 		}
 		if sh.I == 0 {
